@@ -9,12 +9,18 @@ import dev
 ROOTS = ["factory/gamepad", "factory/keyboard", "user/gamepad", "user/keyboard"]
 
 
-def valid_cfg(ident):
+def valid_cfg(ident, rng=None):
+    if rng is not None and rng.random() < 0.5:
+        # zero components left out (they default to zero); a default configuration may have no identifier table at all
+        keys = [(k, v) for k, v in zip(("bus", "vendor", "product", "version"), ident) if v != 0 or rng.random() < 0.3]
+        idt = ("[identifier]\n" + "".join("%s = %d\n" % kv for kv in keys)) if keys or rng.random() < 0.5 else ""
+        return ("collision_mode = \"off\"\n%s[defaults]\nchannel = 1\nmapping = \"m\"\n[[mapping]]\nname = \"m\"\n" % idt).encode()
     return ("collision_mode = \"off\"\n[identifier]\nbus = %d\nvendor = %d\nproduct = %d\nversion = %d\n[defaults]\nchannel = 1\nmapping = \"m\"\n"
             "[[mapping]]\nname = \"m\"\n" % ident).encode()
 
 
-BROKEN = [b"collision_mode = \n", b"\xff\xfe", b"collision_mode = \"nope\"\n[defaults]\nchannel=1\nmapping=\"m\"\n[[mapping]]\nname=\"m\"\n",
+BROKEN = [b"collision_mode = \"off\"\n[[mapping]]\nname = \"m\"\n[mapping.keys]\nKEY_A = \"c1", b"exit_sequence = [\"KEY_ESC\"",
+          b"collision_mode = \n", b"\xff\xfe", b"collision_mode = \"nope\"\n[defaults]\nchannel=1\nmapping=\"m\"\n[[mapping]]\nname=\"m\"\n",
           b"", b"[defaults]\nmapping = \"x\"\n", b"mapping = 1979-05-27\n", b"unknown_field = 1\n"]
 
 
@@ -50,8 +56,15 @@ def gen_tree(rng):
             present.append(("zz_dup.toml", rng.choice([dev_id, (0, 0, 0, 0)])))
         if rng.random() < 0.1:
             present.append(("sub/dir/nested.toml", ids[3]))
+        if rng.random() < 0.15 and present:
+            # a copy of a file of another directory adapted for another device: same name, other identifier
+            other_names = [f[0] for rr in range(r) for f in files[rr] if f[1] == "ok"]
+            if other_names:
+                nm = rng.choice(other_names)
+                if not any(pn == nm for pn, _ in present):
+                    present.append((nm, rng.choice([ids[1], ids[3], dev_id, (0, 0, 0, 0)])))
         for name, ident in present:
-            files[r].append((name, "ok", ident, valid_cfg(ident)))
+            files[r].append((name, "ok", ident, valid_cfg(ident, rng)))
         # a candidate that is a symbolic link to a configuration kept elsewhere (dot-file managers, shared set-ups):
         # the link's own name decides whether it is a configuration file, its target's content is the configuration
         if rng.random() < 0.25:
@@ -238,7 +251,10 @@ def run(prop, tier, seed, verdict):
             verdict.violation({"clause": "runner-crash"}, {"ops": g[:40], "log": glog[-2000:]}, False)
             break
         # ---- the property on the implementation's answers
-        if gl[0] == "panic":
+        if gl[0] == "hang":
+            verdict.violation({"clause": "load-hangs"},
+                              {"ops": g, "outcome": "LoadDeviceConfigs did not return within 8 s", "files": [(ROOTS[r], f[0], f[1]) for r in range(4) for f in e["files"][r]]}, True)
+        elif gl[0] == "panic":
             verdict.violation({"clause": "load-panic"},
                               {"ops": g, "outcome": "LoadDeviceConfigs panicked", "missing_roots": [ROOTS[r] for r in sorted(e["missing"])]}, True)
         elif e["missing"]:
